@@ -356,3 +356,80 @@ class _VmtarProbe:
 @register("vmtar")
 def open_vmtar(files, opaque, p):
     return _VmtarProbe(p)
+
+
+class _PathsProbe:
+    """Replays a path scenario on the real code in a temporary directory; records every open() mode."""
+
+    def __init__(self, p, exists):
+        self.p, self.exists = p, exists
+
+    def paths(self):
+        import builtins
+        import os
+        import pathlib
+        import tempfile
+
+        p = self.p
+        modes = []
+        with tempfile.TemporaryDirectory() as td:
+            def real(path):
+                return os.path.join(td, path.lstrip("/"))
+
+            for e in self.exists:
+                rp = real(e)
+                if e.endswith((".hdd", ".pvm")):
+                    os.makedirs(rp, exist_ok=True)
+                    continue
+                os.makedirs(os.path.dirname(rp), exist_ok=True)
+                data = b"\x00" * 4096
+                if p["kind"] == "hdd" and e.endswith("DiskDescriptor.xml"):
+                    xml = p["xml"]
+                    for f in p["files"]:
+                        if f.startswith("/"):
+                            xml = xml.replace(f">{f}<", f">{real(f)}<")
+                    data = xml.encode()
+                with open(rp, "wb") as fh:
+                    fh.write(data)
+            before = {}
+            for root, _, fs_ in os.walk(td):
+                for f in fs_:
+                    fp = os.path.join(root, f)
+                    before[fp] = (os.path.getsize(fp), open(fp, "rb").read())
+            orig_open = pathlib.Path.open
+
+            def rec(self_, mode="r", *a, **kw):
+                modes.append((str(self_), mode))
+                return orig_open(self_, mode, *a, **kw)
+
+            pathlib.Path.open = rec
+            try:
+                if p["kind"] == "hdd":
+                    from dissect.hypervisor.disk import hdd
+
+                    class H:
+                        def __init__(self, fh, parent=None):
+                            self.fh, self.parent = fh, parent
+
+                    orig = (hdd.HDS, hdd.StorageStream)
+                    hdd.HDS = H
+                    hdd.StorageStream = lambda streams: streams
+                    try:
+                        hdd.HDD(pathlib.Path(real("/evidence/copy.pvm/copy.hdd"))).open()
+                    except (OSError, KeyError, ValueError):
+                        pass
+                    finally:
+                        hdd.HDS, hdd.StorageStream = orig
+            finally:
+                pathlib.Path.open = orig_open
+            changed = [fp for fp, (sz, data) in before.items() if not os.path.exists(fp) or open(fp, "rb").read() != data]
+        bad = [m for m in modes if m[1] not in ("rb", "r", "rt")]
+        return dict(bad_modes=bad, changed=changed)
+
+
+@register("paths")
+def open_paths(files, opaque, p):
+    import json
+    import sys
+
+    return _PathsProbe(p, p.get("exists", []))
